@@ -89,6 +89,24 @@ PLAN = {
         "scen_thorough": ["h1-max1-AAB", "h1-max1-pto", "h1-max1-pto-AB", "h1-guess-max1", "h1-guess-max2", "h1-max2-AAAA", "h1-max1-close", "h1-max1-abandon", "h1-max3-ABCAB"],
         "strategies": ["base", "dfs", "fault", "cancel-scope"],
     },
+    "C01": {
+        "inv": ["TypeOK", "OwnResponse", "ReuseGate"],
+        "prop": [],
+        "mc_quick": [("CfgsQ1", {"maxclock": 1})],
+        "vacuity": [("DevIdle", "CfgsQ1", "ReuseGate"), ("DevIdle", "CfgsQ1", "OwnResponse")],
+        "scen_quick": ["h1-max1-abandon", "h1-max1-close", "h1-max1-early", "h1-max1-mixed-ends"],
+        "scen_thorough": ["h1-max1-abandon", "h1-max1-close", "h1-max1-http10", "h1-max1-early", "h1-max1-mixed-ends", "h1-max2-AAAB-mixed", "h1-max1-AAB", "h1-max2-AAAA"],
+        "strategies": ["base", "dfs", "fault", "cancel-scope", "sequential"],
+    },
+    "C14": {
+        "inv": ["TypeOK", "AtMostOnce"],
+        "prop": ["RetryOnlyUnsent"],
+        "mc_quick": [("CfgsQ1", {"maxclock": 1}), ("CfgsQ3a", {})],
+        "vacuity": [],
+        "scen_quick": ["h1-max1-AAB", "h1-guess-max1", "h1-retries-max1-AA", "h1-max1-early"],
+        "scen_thorough": ["h1-max1-AAB", "h1-guess-max1", "h1-guess-max2", "h1-retries-max1-AA", "h1-retries-max2-AB", "h1-max1-early", "h1-max1-close", "h1-max2-AAAA"],
+        "strategies": ["base", "dfs", "fault"],
+    },
     "C10": {
         "inv": ["TypeOK"],
         "prop": ["PassImplementsRel"],
@@ -406,7 +424,7 @@ class PoolRunner:
         n = len(e["obs"]["cs"]) + 1
         for e2 in t4["ev"][len(t4["ev"]) // 2 :]:
             while len(e2["obs"]["cs"]) < n:
-                e2["obs"]["cs"].append({"st": "connecting", "mux": False, "cnt": 0, "idle": False, "av": False, "ex": False, "cl": False, "org": "A"})
+                e2["obs"]["cs"].append({"st": "connecting", "mux": False, "cnt": 0, "idle": False, "av": False, "ex": False, "cl": False, "org": "A", "xc": True})
             e2["obs"]["pool"] = e2["obs"]["pool"] + [n]
         bad.append(("extra-connection", t4))
         res, _ = pooltrace.validate([t for _, t in bad], shards=2)
